@@ -197,7 +197,7 @@ TARGETS: Dict[str, Dict[str, Any]] = {
 
 PROPS: Dict[str, List[str]] = {"C16": ["plugins", "types", "interface"], "C08": ["utils"], "C03": ["record"], "C19": ["hashsums"], "C04": ["chain"], "C18": ["diff"], "C07": ["tocschemas"]}
 
-TRUSTED = ("generated tie (coverage.generated_tie): tools/py2coq.py (fail-closed Python->Gallina translator, ~1100 lines) and "
+TRUSTED = ("generated tie (coverage.generated_tie): tools/py2coq.py (fail-closed Python->Gallina translator, ~1500 lines) and "
            "coq/Gen/PyLib.v (meaning of the Python builtins it emits: str.startswith/find/split/join/slices, len, list "
            "item access, tuple/str comparison) are trusted; `raise X(msg)` / `assert` are read as returning inl (class name, "
            "message) and a call of such a function as a monadic bind; exceptions raised by builtins are not modelled "
